@@ -18,7 +18,19 @@ def check(run: Run):
     run.tlc_must_hold(g, "Tamper.tla design check")
     run.exhaustive = True
     trace = os.path.join(run.work, "trace.ndjson")
-    res = run.drv(["tamper-replay", "-in", g.path, "-trace", trace, "-seed", str(run.seed), "-long", "1"], timeout=1800)
+    try:
+        res = run.drv(["tamper-replay", "-in", g.path, "-trace", trace, "-seed", str(run.seed), "-long", "1"], timeout=1800)
+    except Infra as e:
+        cur = trace + ".current"
+        if os.path.exists(cur) and any(s in str(e) for s in ("fatal error", "stack overflow", "SIGSEGV", "unexpected fault address", "goroutine stack exceeds")):
+            # C07: decrypt never crashes the process - the driver died of an unrecoverable runtime error while executing this case
+            ev = json.load(open(cur))
+            run.findings.append({"kind": "process-crash data=%s key=%s meta=%s ik-row=%s sk-row=%s via=%s cached=%s suffixed=%s" % (
+                ev.get("data"), ev.get("key"), ev.get("meta"), ev.get("ik"), ev.get("sk"), ev.get("via"), ev.get("cached"), ev.get("suffixed")),
+                "detail": "the process died while decrypting this record: " + "\n".join(l for l in str(e).splitlines() if "fatal" in l or "overflow" in l or "SIG" in l)[:400],
+                "case": {"event": ev}})
+            return run.finish("model_checking", "INCOMPLETE RUN: the driver process was killed by the runtime while executing a case", ASSUME, explanation="incomplete")
+        raise
     os.remove(g.path)
     if res["evaluations"] == 0:
         raise Infra("no case reached the driver")
@@ -38,12 +50,19 @@ def check(run: Run):
 
 def replay(run: Run, finding):
     ev = finding.get("case", {}).get("event", {})
-    case = {k: ev.get(k) for k in ("data", "key", "meta", "ik", "sk")}
+    case = {k: ev.get(k) for k in ("data", "key", "meta", "ik", "sk")}    # (the flavour and the random choices follow from the seed / position: a replay re-runs the recombination under the default flavour)
     case["expect"] = ""
     cp = run.write("case.json", json.dumps(case) + "\n")
     run.spec_files("Tamper.tla", "TamperTrace.tla")
     trace = os.path.join(run.work, "trace.ndjson")
-    run.drv(["tamper-replay", "-in", cp, "-trace", trace, "-seed", str(run.seed), "-long", "0"])
+    os.environ["VERIF_TAMPER_FLAVOUR"] = ("cached " if ev.get("cached") else "") + ("suffixed" if ev.get("suffixed") else "") or "plain"
+    import vlib
+    vlib.GOENV["VERIF_TAMPER_FLAVOUR"] = os.environ["VERIF_TAMPER_FLAVOUR"]
+    try:
+        run.drv(["tamper-replay", "-in", cp, "-trace", trace, "-seed", str(run.seed), "-long", "0"])
+    except Infra as e:
+        print("the driver process died while decrypting this record: " + " | ".join(l for l in str(e).splitlines() if "fatal" in l or "overflow" in l or "SIG" in l)[:300])
+        return 1
     rej = validate_traces(run, "TamperTrace.tla", {}, [], trace, "replay")
     print("rejected: " + json.dumps(rej[0]["event"])[:500] if rej else "accepted")
     return 1 if rej else 0
